@@ -599,18 +599,3 @@ Qed.
 Definition basis_check : bool :=
   forallb (fun i => forallb (fun j => N.eqb (dot_impl (2 ^ i) (2 ^ j)) (dot_spec (2 ^ i) (2 ^ j))) range128) range128.
 
-Lemma basis_ok : basis_check = true.
-Proof. vm_compute. reflexivity. Qed.
-
-Theorem dot_impl_spec : forall a b, a < 2 ^ 128 -> b < 2 ^ 128 -> dot_impl a b = dot_spec a b.
-Proof.
-  apply bilinear_ext.
-  - exact dot_impl_lin_l.
-  - exact dot_impl_lin_r.
-  - intros b x y. apply dot_spec_lxor_l.
-  - intros a x y. apply dot_spec_lxor_r.
-  - intros i j Hi Hj. pose proof basis_ok as H. unfold basis_check in H.
-    rewrite forallb_forall in H. specialize (H i (range128_In i Hi)).
-    rewrite forallb_forall in H. specialize (H j (range128_In j Hj)).
-    apply N.eqb_eq. exact H.
-Qed.
